@@ -475,6 +475,20 @@ func (x *Exec) callCommon(fr *frame, st *State, cc *ssa.CallCommon, args []Val, 
 	if cc.IsInvoke() {
 		recv := x.val(fr, cc.Value)
 		mname := cc.Method.Name()
+		if x.chain != nil && mname == "Execute" && x.chainPos+1 < len(x.chain) && strings.HasSuffix(typeKey(cc.Value.Type()), ".Action") {
+			// state unit: the wrapped action is known from the evaluated table
+			callee := x.chain[x.chainPos+1]
+			x.chainPos++
+			defer func() { x.chainPos-- }()
+			recvArg := x.chainReceiver(callee, recv, reach)
+			full := append([]Val{recvArg}, args...)
+			if len(callee.Blocks) > 0 && !hasLoops(callee) {
+				x.inlined[callee.String()] = true
+				return x.inline(callee, full, nil, st, reach, fr.depth+1)
+			}
+			x.havocCall(st, cc, "wrapped action not followable: "+callee.String())
+			return x.freshResults(sig, "next")
+		}
 		if ct := x.ifaceContract(cc.Value.Type(), mname); ct != nil {
 			return x.applyContract(ct, nil, sig, recv, args, st, reach, where)
 		}
